@@ -1560,6 +1560,11 @@ class Interp:
             if l.v is None or r.v is None or isinstance(l.v, bool) or isinstance(r.v, bool):
                 return l.v is r.v
             return l == r
+        if isinstance(l, DictV) and isinstance(r, DictV) and l.origin is not None and r.origin is not None:
+            if l.origin == r.origin:
+                return True  # two reads of the same heap slot
+            if getattr(self.policy, "distinct_slots", False):
+                return False  # scenario states that different slots hold different dictionaries
         if isinstance(l, concrete) and isinstance(r, concrete):
             if type(l) is not type(r):
                 return False
